@@ -8,6 +8,7 @@ R3  the periodic-image expression agrees between cvc::dist2, dist2_lgrad, dist2_
 R4  sibling operations support the same set of value types (+=/-=, *=//=, dist2/dist2_grad, ...)
 """
 from . import expr as X
+from . import cond as C
 from .facts import AnalysisBroken
 
 TYPE = "colvarvalue::Type"
@@ -302,7 +303,44 @@ def r3b(F, rep):
                    "metric on one side, plain difference on the other)", func=f.q)
 
 
+def r5(F, rep):
+    rep.rule("C18-R5", "the variable-level `period` and `wrap_center` are copies taken from the first component at initialisation "
+                       "(script commands can change the component's afterwards): outside init() they enter arithmetic only for "
+                       "scripted / custom-function variables, whose components do not define the periodicity; for every other "
+                       "variable wrapping and distances are delegated to the component")
+    from .rules_c03 import all_guards
+    n = 0
+    for f in F.funcs.values():
+        if f.cls != "colvar" or f.ctor or f.name in ("init", "init_grid_parameters", "init_extended_Lagrangian", "init_custom_function") or "/src/" not in f.file or f.body is None:
+            continue
+        res = X.const_locals(f)
+        for m in f.walk():
+            if m["k"] != "MemberExpr" or m.get("q") not in ("colvar::period", "colvar::wrap_center"):
+                continue
+            if X.key(m, f) not in ("this.period", "this.wrap_center"):
+                continue
+            # arithmetic use (not a bare comparison with a literal)
+            par = f.parent(m)
+            while par is not None and par["k"] in ("ImplicitCastExpr", "ParenExpr"):
+                par = f.parent(par)
+            if par is not None and par["k"] == "BinaryOperator" and par.get("op") in (">", "<", "==", "!=", ">=", "<=") and \
+                    any(C._lit(X.strip(k)) is not None for k in X.kids(par)):
+                continue
+            n += 1
+            ok = False
+            for cn, pol in all_guards(f, m):
+                k = X.key(cn, f, res)
+                if pol and ("f_cv_scripted" in k or "f_cv_custom_function" in k):
+                    ok = True
+            rep.add("C18-R5", "%s|%s" % (f.q, m.get("n")), f.loc(m), "%s uses the variable-level `%s` %s" % (
+                f.q, m.get("n"), "only for scripted / custom-function variables" if ok else "for EVERY variable (a copy that modifycvcs does not update)"), ok,
+                detail="after `cv colvar <name> modifycvcs {wrapAround c}` the component folds around c and the variable around the old centre", func=f.q)
+    if n < 6:
+        raise AnalysisBroken("C18-R5: only %d arithmetic uses of colvar::period / wrap_center found" % n)
+
+
 def run(F, rep, tier):
+    r5(F, rep)
     r1(F, rep)
     r2(F, rep)
     r3(F, rep)
